@@ -12,7 +12,7 @@ RULE = ('a model grid (numbers drawn as literals: sign, digits, fraction, e/E ex
         'numbers and booleans, Remove as x: or -:, h:hh:mm / hh:mm:ss / 1-6 fraction digits, t: with Z or numeric offset and '
         'with/without zone name, s: prefix or bare string when legal, nested lists/dicts/grids under 3.0, rows present / '
         'absent / null, rows omitting or null-ing columns, position of ver/name among the tags, order of meta/cols/rows and '
-        'of row keys), handed to hszinc.parse as text (compact, indented, ensure_ascii on/off), bytes (utf-8/16/32), dict or '
+        'of row keys), handed to hszinc.parse as text (compact, indented, ensure_ascii on/off), bytes (utf-8/16/32, or raw latin-1/cp1252/shift_jis with the charset argument), dict or '
         'list of dicts (also with equal nested sub-objects aliased to one object) with single True/False; the result must be exactly the denoted grids, the pre-decoded input must be '
         'deep-equal to its copy afterwards and share no mutable object with the result. Non-trivial = at least one '
         'non-plain spelling or a non-text input form; distinct by (models, plan, form).')
@@ -21,7 +21,8 @@ ASSUMPTIONS = ['well-formedness is defined by DESIGN.md Appendix B; a bare strin
                'dict values with all of meta, cols, rows as keys are not generated (indistinguishable from a nested grid)']
 FEATURES = {}
 EXHAUSTIVE_CLAIM = False
-FORMS = ['text', 'text-indent', 'text-unicode', 'bytes:utf-8', 'bytes:utf-16', 'bytes:utf-32', 'obj', 'obj-aliased']
+FORMS = ['text', 'text-indent', 'text-unicode', 'bytes:utf-8', 'bytes:utf-16', 'bytes:utf-32', 'obj', 'obj-aliased',
+         'rawbytes:latin-1', 'rawbytes:cp1252', 'rawbytes:shift_jis']
 
 
 def alias_equal(o, pool=None):
@@ -92,7 +93,19 @@ def check_doc(case, acc=None):
             txt = json.dumps(obj, ensure_ascii=False)
         else:
             txt = json.dumps(obj, separators=(',', ':'))
-        if form.startswith('bytes:'):
+        if form.startswith('rawbytes:'):
+            # non-ASCII characters written raw in a legacy charset (falls back to utf-8 when the text is not encodable)
+            cs = form.split(':', 1)[1]
+            raw = json.dumps(obj, ensure_ascii=False)
+            try:
+                inp = raw.encode(cs)
+                if inp.decode(cs) != raw:
+                    raise UnicodeError
+            except UnicodeError:
+                cs = 'utf-8'
+                inp = raw.encode(cs)
+            kw['charset'] = cs
+        elif form.startswith('bytes:'):
             cs = form.split(':', 1)[1]
             inp = txt.encode(cs)
             kw['charset'] = cs
